@@ -1,26 +1,26 @@
 #!/bin/sh
 # tools/confirm_seed.sh <patch> <demo.rs> <testname> [features]  : confirm a seeded change in the scratch worktree /tmp/confirm
 # prints: DEMO_UNCHANGED=pass|fail DEMO_CHANGED=pass|fail BASELINE_CHANGED=<n passed>/<n failed>
-W=/tmp/confirm
+W=${CONFIRM_WT:-/tmp/confirm}
 [ -d $W ] || git -C /repo worktree add -q --detach $W HEAD
 git -C $W checkout -q -- . ; git -C $W clean -fdq sentinel-core/tests sentinel-core/examples 2>/dev/null
 git -C $W checkout -q --detach $(git -C /repo rev-parse HEAD) 2>/dev/null
 P="$1"; D="$2"; N="$3"; F="$4"
 FE=""; [ -n "$F" ] && FE="--features $F"
 cp "$D" $W/sentinel-core/tests/$N.rs
-(cd $W && cargo test --offline -p sentinel-core $FE --test $N -- --test-threads=1 >/tmp/confirm-u.log 2>&1) && U=pass || U=fail
+(cd $W && cargo test --offline -p sentinel-core $FE --test $N -- --test-threads=1 >$W-u.log 2>&1) && U=pass || U=fail
 git -C $W apply "$P" || { echo "PATCH DOES NOT APPLY"; exit 3; }
-(cd $W && cargo test --offline -p sentinel-core $FE --test $N -- --test-threads=1 >/tmp/confirm-c.log 2>&1) && C=pass || C=fail
+(cd $W && cargo test --offline -p sentinel-core $FE --test $N -- --test-threads=1 >$W-c.log 2>&1) && C=pass || C=fail
 rm -f $W/sentinel-core/tests/$N.rs
-(cd $W && cargo test --workspace --no-fail-fast --offline >/tmp/confirm-b.log 2>&1)
-B=$(grep -E "^test result" /tmp/confirm-b.log | head -1)
-FT=$(grep -E "^test .* FAILED" /tmp/confirm-b.log | tr '\n' ' ')
+(cd $W && cargo test --workspace --no-fail-fast --offline >$W-b.log 2>&1)
+B=$(grep -E "^test result" $W-b.log | head -1)
+FT=$(grep -E "^test .* FAILED" $W-b.log | tr '\n' ' ')
 if [ -n "$FT" ]; then
   # a failure in the existing suite: run it once more (the suite has one wall-clock sensitive test) and report both runs
-  (cd $W && cargo test --workspace --no-fail-fast --offline >/tmp/confirm-b2.log 2>&1)
-  B="$B first-run-failures: $FT second run: $(grep -E "^test result" /tmp/confirm-b2.log | head -1) $(grep -E "^test .* FAILED" /tmp/confirm-b2.log | tr '\n' ' ')"
+  (cd $W && cargo test --workspace --no-fail-fast --offline >$W-b2.log 2>&1)
+  B="$B first-run-failures: $FT second run: $(grep -E "^test result" $W-b2.log | head -1) $(grep -E "^test .* FAILED" $W-b2.log | tr '\n' ' ')"
 fi
 git -C $W checkout -q -- .
 echo "DEMO_UNCHANGED=$U DEMO_CHANGED=$C BASELINE_CHANGED=[$B]"
 echo "$N DEMO_UNCHANGED=$U DEMO_CHANGED=$C BASELINE_CHANGED=[$B]" >> /tmp/confirm-summary.txt
-grep -E "^test .*FAILED|panicked" /tmp/confirm-c.log | head -5
+grep -E "^test .*FAILED|panicked" $W-c.log | head -5
